@@ -157,6 +157,17 @@ CONTRACTS['MultiFrameData.__init__'] = dict(
     ensures=[('chunk-size-positive-or-none', 'self._chunk_rows is None or self._chunk_rows >= 1'), ('chunk-size-kept', 'self._chunk_rows == chunk_size'),
              ('own-counter-from-zero', 'self._i == 0'), ('own-frame', 'self._frame is frame'), ('own-data', 'self._data_source is data'),
              ('origin-of-the-frame', 'self._origin_reference == frame._origin_reference')])
+# C08 "a repeated ... name would announce a layout the rows do not have": stated once more for ONE concrete frame that lists the same
+# name twice over data with a single field of that name, so that it is decided whatever form the comparison of the names takes
+CONTRACTS['MultiFrameData.__init__[one-name-listed-twice]'] = dict(
+    target='MultiFrameData.__init__', props=['C08', 'C03', 'C12'], self_fields={}, self_inv=[],
+    params={'frame': {'cls': 'FrameItem', 'fields': {'_origin_reference': 'int?', 'channels': {'cls': 'Attribute', 'fields': {'_value': 'list[obj:NamedGR]*2'}}}},
+            'data': {'cls': 'SourceDataWrapper', 'fields': dict(SW_FIELDS, _dtype={'cls': 'StructuredDTypeRecord', 'fields': {'names': 'tuple[const:"GR"]'}})},
+            'chunk_size': 'none'},
+    returns='none', may_raise=['TypeError'], raises={'ValueError': 'True'},
+    inline_callees=['FrameItem.channel_name_mapping', 'FrameItem.known_channel_dtypes_mapping'],
+    stubs={'_check_type': dict(returns='none', raises=True)})
+MODELS['NamedGR'] = {'cls': 'ChannelItem', 'fields': {'name': 'const:"GR"', '_dataset_name': 'none', '_cast_dtype': 'none'}}
 MODELS['MultiFrameData'] = {'fields': MFD_FIELDS, 'inv': []}
 MODELS['NamedT'] = {'cls': 'ChannelItem', 'fields': {'name': 'str'}}
 OPQ_MODELS['names'] = {'__isinstance__': {}}
